@@ -1139,6 +1139,9 @@ class Printer:
                 return self._bool(ast.IfExp(test=l.test, body=a, orelse=b), pol)
             if isinstance(l, ast.Constant):
                 return ("const", (l.value is None) == pol)
+            if isinstance(l, ast.BinOp) and isinstance(l.op, (ast.Add, ast.Sub, ast.Mult, ast.FloorDiv, ast.Mod, ast.LShift, ast.RShift, ast.BitAnd, ast.BitOr,
+                                                             ast.BitXor, ast.Pow)):
+                return ("const", not pol)  # the result of arithmetic is never None
             if isinstance(l, ast.Call) and isinstance(l.func, ast.Name) and self._is_class(l.func.id):
                 return ("const", not pol)
             if self._never_none(l):
